@@ -222,6 +222,19 @@ static void pools(void)
 	add1("truncated JSON", b64s("{\"alg\":\"none\""));
 	add1("invalid UTF-8", B64L("{\"alg\":\"none\",\"x\":\"\xff\"}"));
 	{
+		/* a known algorithm name followed by 256 / 512 more characters names no algorithm */
+		static const char *nm[] = { "none", "HS256" };
+		for (int i = 0; i < 2; i++)
+			for (int n = 256; n <= 512; n += 256) {
+				char *j = malloc(700);
+				int o = sprintf(j, "{\"alg\":\"%s", nm[i]);
+				memset(j + o, 'x', n);
+				strcpy(j + o + n, "\"}");
+				add1(n == 256 ? (i ? "alg HS256 + 256 chars" : "alg none + 256 chars") : (i ? "alg HS256 + 512 chars" : "alg none + 512 chars"), b64s(j));
+				free(j);
+			}
+	}
+	{
 		/* long segments that do not decode: foreign byte, all padding, 1 mod 4 */
 		char *s;
 		s = malloc(700); memset(s, 'e', 600); s[300] = '!'; s[600] = 0; add1("600 chars with a foreign byte", s);
